@@ -21,6 +21,10 @@ type Value struct {
 	mu         sync.RWMutex
 	value      proto.Message
 	changeTime time.Time
+	// commits counts the writes applied to value, guarded by mu
+	commits uint64
+	// publishing makes the changes leave in the order of their commits
+	publishing turnstile
 
 	bus minibus.Bus
 }
@@ -60,6 +64,7 @@ func (r *Value) set(value proto.Message, request WriteRequest) (proto.Message, e
 	}
 
 	var changeTime time.Time // the time saved with the value, also reported by the change event
+	var commit uint64
 	disarm := timeoutAlarm(time.Second, "GetAndUpdate took too long")
 	_, newValue, err := GetAndUpdate(
 		&r.mu,
@@ -71,6 +76,8 @@ func (r *Value) set(value proto.Message, request WriteRequest) (proto.Message, e
 			r.value = message
 			changeTime = request.updateTime(r.clock)
 			r.changeTime = changeTime
+			r.commits++
+			commit = r.commits
 		},
 	)
 	disarm()
@@ -80,6 +87,8 @@ func (r *Value) set(value proto.Message, request WriteRequest) (proto.Message, e
 	}
 	verifhook.Yield("value.publish")
 
+	r.publishing.enter(commit)
+	defer r.publishing.leave(commit)
 	ctx, cancel := context.WithTimeout(context.TODO(), time.Second*5)
 	defer cancel()
 	r.bus.Send(ctx, &ValueChange{
